@@ -139,6 +139,34 @@ def run(ctx):
                         break
         if ctx.n_new() >= 3:
             return
+    # history: parameters saved from one model and loaded into a separately built model of the same architecture (different region
+    # graph seed) — the normal save / rebuild / load workflow; the restored model must still sample from ITS distribution
+    for k in range(3 if quick else 20):
+        rs = np.random.RandomState(np_seed(ctx.sub_rng('reload', k)))
+        n = int(rs.randint(4, 8)); d = int(rs.randint(1, int(math.floor(math.log2(n))) + 1)); reps = int(rs.randint(1, 3))
+        rep = dict(kind='c16-reload', features=n, depth=d, repetitions=reps, k=k)
+        ctx.case('reload', nontrivial_key=('reload', n, d, reps, k), sample=rep)
+        ctx.count('state-dict-reload-cases')
+        a = BernoulliRatSpn(n, out_classes=1, rg_depth=d, rg_repetitions=reps, rg_batch=2, rg_sum=2, random_state=np.random.RandomState(100 + k))
+        for p_ in a.parameters():
+            p_.data.normal_()
+        b = BernoulliRatSpn(n, out_classes=1, rg_depth=d, rg_repetitions=reps, rg_batch=2, rg_sum=2, random_state=np.random.RandomState(900 + k))
+        try:
+            b.load_state_dict(a.state_dict())
+        except Exception as ex:
+            ctx.count('state-dict-not-loadable')
+            continue
+        a.eval(); b.eval()
+        with torch.no_grad():
+            rows = torch.tensor(list(itertools.product([0.0, 1.0], repeat=n)))
+            if not torch.allclose(a(rows), b(rows), atol=1e-5):
+                ctx.violation('c16-reload-forward', 'a model restored from a state_dict assigns different log-probabilities than the saved one', replay=rep)
+                continue
+        if not impl_oracle(ctx, b, n, 1, rs, rep):
+            continue
+        sample_law(ctx, b, n, rs, rep, 200000, eps)
+        if ctx.n_new() >= 3:
+            return
     # Gaussian leaves: all-missing = 0 and marginal consistency (a variable marked missing vs integrating it out numerically is not
     # available; consistency identity: marginal of a subset does not depend on how the rest is marked)
     for k in range(4 if quick else 30):
